@@ -16,7 +16,7 @@ import (
 // (fault-free: uninterrupted run, healthy target). DESIGN.md §3 C01.
 
 func init() {
-	Register(&PropertyDef{ID: "C01", Strata: []string{"mixed", "txnmode", "nontxn", "bigargs", "selectheavy", "txnheavy", "configured-out"}, Run: runC01, StepCap: 30000})
+	Register(&PropertyDef{ID: "C01", Strata: []string{"mixed", "txnmode", "nontxn", "bigargs", "selectheavy", "txnheavy", "configured-out", "burst"}, Run: runC01, StepCap: 30000})
 }
 
 func c01Opts(r *Run, stratum string) (PipeCfg, StreamOpts) {
@@ -42,6 +42,16 @@ func c01Opts(r *Run, stratum string) (PipeCfg, StreamOpts) {
 		o.SelectHeavy = true
 	case "txnheavy":
 		o.TxnHeavy = true
+	case "burst":
+		// a burst: more commands than one exchange of the client usually carries arrive within one batch-ticker period
+		// and the operator allows batches up to the configured maximum (200 commands): batches of 129..200 commands
+		o.MaxItems = 150 + g.Choose("burstitems", 250)
+		cfg.BatchCount = uint(129 + g.Choose("burstbatch", 72))
+		cfg.BatchBytes = uint64(64<<10) << g.Choose("burstbytes", 5) // 64 KiB .. 1 MiB
+		cfg.BatchTicker = tickerChoices[3+g.Choose("burstticker", 3)]
+		cfg.Keepalive = tickerChoices[4+g.Choose("burstkeepalive", 3)] + 137*time.Microsecond
+		cfg.CpTicker = tickerChoices[4+g.Choose("burstcp", 2)] + 271*time.Microsecond
+		o.Burst = true
 	case "configured-out":
 		// "the documented removals (... administrative and configured-out commands)": command, database and key rules
 		// as an operator configures them; what remains must still arrive complete and in order
